@@ -10,6 +10,8 @@
   Delimiting predicates (all decidable, defined next to their proofs):
   * `frag` (PgProofs/Typing.lean) — idempotence / default: leaves, lists, tuples, schema-less dict;
     `simpleUnion` + `fragList` (PgProofs/TypingUnion.lean) — unions of such leaves;
+  * `fragD` / `defOk` / `wfd` (PgProofs/TypingDictNested.lean) — `C04_idem_dict_nested`: Dicts with a
+    schema nested to any depth, on well-formed values;
   * `CompatOk a b` (PgProofs/TypingCompat.lean) — `C04_compat_partial`, mutual induction on `a`;
     `CompatOkUnion cands f b` (PgProofs/TypingUnion.lean) — `C04_compat_partial_union`;
   * `ExtOk child base` (PgProofs/TypingExtend.lean) — `C04_extend_partial`: the extension lands in
@@ -26,6 +28,7 @@ import PgProofs.TypingExtendUnion
 import PgProofs.TypingExtendDict
 import PgProofs.TypingUnion
 import PgProofs.TypingDictIdem
+import PgProofs.TypingDictNested
 namespace Pg.Typing
 
 /-- Environment of the counterexamples: classes 0 ⊃ 1, every regex matches. -/
@@ -69,6 +72,27 @@ theorem C04_idem_dict_general (env : Env) (fields : List Field) (f : Flags) (p :
     (h : apply env (.dict (some fields) f) p v = .ok v') :
     apply env (.dict (some fields) f) p v' = .ok v' :=
   apply_dict_idem env fields f p v v' hd hI hM hv h
+
+/-- **Dict idempotence at any nesting depth** (PgProofs/TypingDictNested.lean): `fragD` = the fragment
+`frag` plus Dicts with a schema (distinct keys; const and dynamic keys, field defaults, all flags)
+whose field specs are in `fragD` again — Dict in Dict in Dict … —, for every spec whose stored
+defaults are well-formed values (`defOk`), on every well-formed value: `wfd v` says that every dict
+reached through dict members has distinct keys, which every Python dict has.  The result is again
+well-formed (that is what carries the statement through the levels: `IdemOn`). -/
+theorem C04_idem_dict_nested (env : Env) (s : Spec) (hs : fragD s = true) (hd : defOk s = true)
+    (p : Bool) (v v' : Val) (hv : wfd v = true) (h : apply env s p v = .ok v') :
+    apply env s p v' = .ok v' ∧ wfd v' = true :=
+  (idemOn_fragD env p s hs hd).1 v v' hv h
+
+/-- Non-vacuity: three levels, a dynamic key and a default at the innermost one. -/
+def exN : Spec :=
+  .dict (some [.mk (.const "a") (.dict (some [.mk (.const "b") (.dict (some [
+      .mk (.const "c") (.float none none ⟨false, .float ⟨1, 1⟩, false⟩), .mk (.strKey none) (.int (some 0) none F0)])
+      ⟨false, .dict [("c", .float ⟨1, 1⟩)], false⟩)]) ⟨false, .dict [("b", .dict [("c", .float ⟨1, 1⟩)])], false⟩),
+    .mk (.const "l") (.list (.int none none F0) 0 none F0)]) F0
+example : fragD exN = true ∧ defOk exN = true := by decide
+example : apply env0 exN false (.dict [("l", .list [.int 1]), ("a", .dict [("b", .dict [("q", .int 2)])])])
+    = .ok (.dict [("l", .list [.int 1]), ("a", .dict [("b", .dict [("q", .int 2), ("c", .float ⟨1, 1⟩)])])]) := by rfl
 
 example : apply env0 (.dict (some [.mk (.const "x") (.int none none ⟨false, .int 1, false⟩),
       .mk (.strKey none) (.float none none F0)]) F0) false (.dict [("q", .int 2)])
